@@ -111,7 +111,19 @@ func keyKind(v ssa.Value, inModule func(*ssa.Function) bool) (kind string, metho
 			for _, a := range cc.Args {
 				walk(a)
 			}
+		case *ssa.Extract:
+			walk(x.Tuple)
+		case *ssa.Field:
+			ms["field "+fieldNameOfValue(x.X.Type(), x.Field)] = true
+			walk(x.X)
+		case *ssa.TypeAssert:
+			walk(x.X)
 		case *ssa.UnOp:
+			if fa, ok := x.X.(*ssa.FieldAddr); ok {
+				ms["field "+fieldNameOfValue(fa.X.Type(), fa.Field)] = true
+				walk(fa.X)
+				return
+			}
 			// load of a local cell: every store into it
 			if a, ok := x.X.(*ssa.Alloc); ok && a.Referrers() != nil {
 				for _, r := range *a.Referrers() {
@@ -167,6 +179,8 @@ func keyKind(v ssa.Value, inModule func(*ssa.Function) bool) (kind string, metho
 		return "independent", methods
 	case ms["LocalAddr"] && !ms["RemoteAddr"]:
 		return "local", methods
+	case ms["RemoteAddr"] && (ms["SplitHostPort"] || ms["field IP"] || ms["field Port"] || ms["field Zone"] || ms["Hostname"] || ms["Addr"] || ms["Port"]):
+		return "partial", methods
 	case ms["RemoteAddr"]:
 		return "remote", methods
 	case len(ms) == 0:
@@ -315,6 +329,8 @@ func c18ConnKey(c *Ctx) {
 					r.Fail(rule, construct, pos, detail+": LocalAddr() is the listener's address, identical for every accepted connection — each registration replaces the previous one, so Stop() closes only the last connection and the other handlers never exit")
 				case "independent":
 					r.Fail(rule, construct, pos, detail+": the key does not depend on the connection, so registrations overwrite each other")
+				case "partial":
+					r.Fail(rule, construct, pos, detail+": the key is only a PART of the remote address (host without port, or port without host) on some path: two live connections of one client share it, the second registration replaces the first, and Stop() never closes the first connection")
 				default:
 					// nothing wrong was observed: the key comes out of code this rule does not read
 					r.OK(rule, construct, pos, "NOT DECIDED — "+detail+": the key derivation was not followed to the connection (accepted: the connection itself or a value computed from RemoteAddr(); rejected: LocalAddr() or a connection-independent value)")
@@ -477,4 +493,14 @@ func c18OnceCloses(c *Ctx) {
 	}
 	r.Floor(rule, 2)
 	r.Extra["R4_once_bodies_closing"] = n
+}
+
+func fieldNameOfValue(t types.Type, i int) string {
+	if p, ok := t.Underlying().(*types.Pointer); ok {
+		t = p.Elem()
+	}
+	if st, ok := t.Underlying().(*types.Struct); ok && i < st.NumFields() {
+		return st.Field(i).Name()
+	}
+	return "?"
 }
